@@ -139,7 +139,8 @@ def hasDupStr : List String → Bool
   | [] => false
   | x :: xs => xs.contains x || hasDupStr xs
 
-def notPrefix (neg : Bool) : String := if neg then "not " else ""
+/-- Python `str` values are modelled as character lists (`String.ofList` at the boundary) -/
+def notPrefix (neg : Bool) : List Char := if neg then "not ".toList else []
 
 def Cond.isConj : Cond → Bool
   | .conj _ => true
@@ -153,30 +154,39 @@ def isSingleton {α} : List α → Bool
   | [_] => true
   | _ => false
 
+/-- `sep.join(parts)` -/
+def joinChars (sep : List Char) : List (List Char) → List Char
+  | [] => []
+  | [a] => a
+  | a :: rest => a ++ sep ++ joinChars sep rest
+
 mutual
 /-- `str(condition)` -/
-def printCond : Cond → String
-  | .single neg n => notPrefix neg ++ n
-  | .score neg n s => notPrefix neg ++ "minscore(" ++ n ++ ", " ++ toString s ++ ")"
+def printChars : Cond → List Char
+  | .single neg n => notPrefix neg ++ n.toList
+  | .score neg n s => notPrefix neg ++ "minscore(".toList ++ n.toList ++ ", ".toList ++ (toString s).toList ++ [')']
   | .minimum neg c opts =>
-      notPrefix neg ++ "minimum(" ++ toString c ++ ", [" ++ ", ".intercalate (sortDedupStr opts) ++ "])"
+      notPrefix neg ++ "minimum(".toList ++ (toString c).toList ++ ", [".toList
+        ++ joinChars ", ".toList ((sortDedupStr opts).map String.toList) ++ "])".toList
   | .cds neg subs =>
-      let t := printJoin " or " subs
-      -- D43 fix: a lone parenthesised operand keeps its parentheses (`cds(a)` is not valid)
-      let t := if isSingleton subs && subs.all Cond.isGroup && !t.startsWith "(" then "(" ++ t ++ ")" else t
-      notPrefix neg ++ "cds(" ++ t ++ ")"
+      let t := printJoin " or ".toList subs
+      -- D26 fix: a lone parenthesised operand keeps its parentheses (`cds(a)` is not valid)
+      let t := if isSingleton subs && subs.all Cond.isGroup && !(t.head? == some '(') then '(' :: t ++ [')'] else t
+      notPrefix neg ++ "cds(".toList ++ t ++ [')']
   | .group neg subs =>
-      let t := printJoin " or " subs
+      let t := printJoin " or ".toList subs
       if isSingleton subs && !(subs.all Cond.isConj) then
         -- D17 fix: a directly nested negation keeps its parentheses
-        if neg && t.startsWith "not " then "not (" ++ t ++ ")" else notPrefix neg ++ t
-      else notPrefix neg ++ "(" ++ t ++ ")"
-  | .conj subs => printJoin " and " subs
-def printJoin (sep : String) : List Cond → String
-  | [] => ""
-  | [c] => printCond c
-  | c :: cs => printCond c ++ sep ++ printJoin sep cs
+        if neg && "not ".toList.isPrefixOf t then "not (".toList ++ t ++ [')'] else notPrefix neg ++ t
+      else notPrefix neg ++ '(' :: t ++ [')']
+  | .conj subs => printJoin " and ".toList subs
+def printJoin (sep : List Char) : List Cond → List Char
+  | [] => []
+  | [c] => printChars c
+  | c :: cs => printChars c ++ sep ++ printJoin sep cs
 end
+
+def printCond (c : Cond) : String := String.ofList (printChars c)
 
 def printConds (subs : List Cond) : List String := subs.map printCond
 
@@ -747,10 +757,14 @@ def createRules (cfg : Cfg) : List String → List Rule → Aliases → Except E
     let (rules, aliases) ← parseText cfg rules aliases text
     createRules cfg more rules aliases
 
+/-- the condition text of `reconstruct_rule_text`: outer parentheses stripped when the text starts
+    with `(` and ends with `)` -/
+def topChars (c : Cond) : List Char :=
+  let t := printChars c
+  if t.head? == some '(' && t.getLast? == some ')' then (t.drop 1).dropLast else t
+
 /-- `DetectionRule.reconstruct_rule_text` -/
 def Rule.reconstruct (r : Rule) : String :=
-  let t := printCond r.conditions
-  let t := if t.startsWith "(" && t.endsWith ")" then ((t.drop 1).dropEnd 1).toString else t
   let comments := (if r.description.isEmpty then "" else "DESCRIPTION " ++ " ".intercalate r.description ++ " ")
     ++ String.join (r.examples.map fun e =>
         "EXAMPLE " ++ e.database ++ " " ++ e.accession ++ "." ++ toString e.version ++ " "
@@ -758,6 +772,6 @@ def Rule.reconstruct (r : Rule) : String :=
           ++ (match e.compound with | some c => " " ++ c | none => "") ++ " ")
   "RULE " ++ r.name ++ " CATEGORY " ++ r.category ++ " " ++ comments
     ++ "CUTOFF " ++ toString (r.cutoff / 1000) ++ " NEIGHBOURHOOD " ++ toString (r.neighbourhood / 1000)
-    ++ " CONDITIONS " ++ t
+    ++ " CONDITIONS " ++ String.ofList (topChars r.conditions)
 
 end ASV.Parser
